@@ -98,11 +98,11 @@ def build_one(metric, sc, ec, ecase, sizes, tag, pids):
     for nm, method, rr in (("lin", "linear", None), ("lo", "lower", None), ("hi", "higher", None), ("mono", "linear", r2)):
         run = TH.ThrRun(metric, sc, ec, method, sizes, ex=ex, path=path, me=me, r=(rr if rr is not None else r), easy_case=ecase)
         if not run.ok or run.th is None:
-            return [Oblig(f"{p}/{metric}/single-non-raising-path{tag}", [], BoolVal(False), "post", (p,), {"method": method}) for p in pids]
+            return [Oblig(f"{p}/{metric}/single-non-raising-path{tag}", [], BoolVal(False), "post", (p,), {"method": method, "engine_error": "no single non-raising path through threshold_at_" + metric}) for p in pids]
         try:
-            run.env = ex.locals["_invert_increasing_function"][-1][0].env
-        except (KeyError, IndexError):
-            return [Oblig(f"{p}/{metric}/calls-_invert_increasing_function{tag}", [], BoolVal(False), "post", (p,)) for p in pids]
+            run.env = run.roles()
+        except (KeyError, IndexError) as e:
+            return [Oblig(f"{p}/{metric}/ghost-roles-identified{tag}", [], BoolVal(False), "post", (p,), {"engine_error": f"ghost values of _invert_increasing_function not identified: {e}"}) for p in pids]
         runs[nm] = run
         path, me, r = run.path, run.me, (run.r if r is None else r)
     lin, lo, hi, mono = runs["lin"], runs["lo"], runs["hi"], runs["mono"]
@@ -126,6 +126,8 @@ def build_one(metric, sc, ec, ecase, sizes, tag, pids):
 
     def mk(pid, name, goal, hyps, kind="post", case=None, run=lin, keyname=None, ths=(), pairs=()):
         meta = {"key": f"{pid}/{metric}/{keyname or name}[{sc},{ec}]"}
+        if sizes is None:
+            meta["abstracted"] = True        # the symbolic-mode queries of this module abstract code terms by fresh symbols
         if sizes is None:
             if ths or pairs:
                 hyps = list(hyps) + cnt_facts(ths, pairs)
@@ -168,7 +170,7 @@ def build_one(metric, sc, ec, ecase, sizes, tag, pids):
             T_, rho = toR(un0(env["target"])), toR(un0(env["target_ratio"]))
             shift = 0 if env["left_continuous"] is True else 1
         except KeyError as e:
-            return [Oblig(f"{p}/{metric}/internal-names{tag}", [], BoolVal(False), "post", (p,), {"missing": str(e)}) for p in pids]
+            return [Oblig(f"{p}/{metric}/internal-names{tag}", [], BoolVal(False), "post", (p,), {"missing": str(e), "engine_error": f"ghost value not identified: {e}"}) for p in pids]
         base = base_of(metric, sc, K_, nrel, loc)
         sfx = "" if k == 0 else "(r2)"
         for p_ in pids:
@@ -273,4 +275,5 @@ def collect_safety(ex, obs, metric, tag, pids, abstr=None, facts=None):
         if abstr:
             so.hyps = [substitute(h, *abstr) for h in so.hyps] + list(facts)
             so.goal = substitute(so.goal, *abstr)
+            so.meta = dict(so.meta or {}, abstracted=True)
         obs.append(so)
